@@ -1,7 +1,7 @@
 # C04 — slot migration and failover are invisible to clients
 import json
 import vlib
-from props.common import differential, add_corr
+from props.common import differential, add_corr, strict_routing
 
 
 def run(rep, tier, seed, replay):
@@ -56,5 +56,9 @@ def run(rep, tier, seed, replay):
             found = True
             rep.violation({"kind": "history", "oracle": what, "case": {"line": cases[i], "format": "nodes layout bg # items: q <request> [@ask steps] | mb slot to | mk hexkey | mf slot | fo node | w"},
                            "impl": impl[i][:4000], "model": model[i][:4000], "failing_cases": len(mm)})
+    v = strict_routing(rep, PROP, seed + 3, 25 if tier == "quick" else 1500, tier)
+    if v and not found:
+        found = True
+        rep.violation(v)
     if not pr["ok"] and not found:
         rep.violation({"kind": "broken-tie", "theorem": pr.get("broken"), "detail": pr.get("tail"), "searched": "replies, data and execution counts agree with the model on every history"}, found_input=False)
